@@ -104,7 +104,8 @@ def gen_random(rng: random.Random, cfgs: list[str]) -> dict:
     # late rescue so that legitimately sleeping waiters do not end every case in a skip
     actors.append({"role": "N", "mode": "scope",
                    "ops": [["notify", 26, "all"] if kind == "cond" else ["set", 26]]})  # fmt: skip
-    return {"cfg": rng.choice(cfgs), "kind": kind, "actors": actors, "agents": agents}
+    return {"cfg": rng.choice(cfgs), "kind": kind, "actors": actors, "agents": agents,
+            "outside": rng.random() < 0.25}
 
 
 def sweep_cases(cfgs: list[str]):  # noqa: ANN201
@@ -161,11 +162,16 @@ def execute(case: dict) -> dict:
     def window(name: str) -> None:
         out["windows"][name] = out["windows"].get(name, 0) + 1
 
+    # created while no event loop runs (adapters that build the backend object on first use)
+    pre = (anyio.Condition() if is_cond else anyio.Event()) if case.get("outside") else None
+    if pre is not None:
+        window("created_outside_the_loop:" + type(pre).__name__)
+
     async def main() -> None:
         h = Harness()
         h.freeze_on_abort(viol)
-        cond = anyio.Condition() if is_cond else None
-        event = None if is_cond else anyio.Event()
+        cond = (pre or anyio.Condition()) if is_cond else None
+        event = None if is_cond else (pre or anyio.Event())
         state = {"set_seq": None}
         # automaton
         queue: list = []  # waiting actors, FIFO
